@@ -1,9 +1,10 @@
 (* C06 -- performance MIDI export and import preserve notes, controls and timing.
    Statements + `exact` only; proofs in Proofs/C06*.v.  The model (Model/C06.v: save, load,
-   pair_notes, sort_notes, tempo_list, adjust_time; Model/C06_perf.v: sanitize, rs_notes, rs_times) is
+   pair_notes, sort_notes, tempo_list, adjust_time; Model/C06_perf.v: sanitize, rs_notes, rs_times;
+   Model/C06_hist.v: histories of saves; Model/C06_file.v: tempo changes / seconds / notes of a file read with and without merge_tracks) is
    tied to partitura/io/exportmidi.py, importmidi.py, performance.py and utils/music.py by the
    correspondence run by harness/props/c06.py on every check. *)
-From PV Require Import Lib.Base Lib.Round Model.C12 Model.C06 Model.C06_perf Proofs.C06_lib Proofs.C06 Proofs.C06_pair Proofs.C06_save Proofs.C06_merge Proofs.C06_check Proofs.C06_sec Proofs.C06_perf Proofs.C06_tracks Model.C06_hist Proofs.C06_hist.
+From PV Require Import Lib.Base Lib.Round Model.C12 Model.C06 Model.C06_perf Proofs.C06_lib Proofs.C06 Proofs.C06_pair Proofs.C06_save Proofs.C06_merge Proofs.C06_check Proofs.C06_sec Proofs.C06_perf Proofs.C06_tracks Model.C06_hist Proofs.C06_hist Model.C06_file Proofs.C06_file.
 From Coq Require Import QArith Qabs Sorted Permutation.
 #[local] Open Scope Z_scope.
 
@@ -412,3 +413,115 @@ Example hist_memo_refuted : exists w h1 a h2,
   nth (hsaves h1) (hrun_memo 0 None w (h1 ++ HSave a :: h2)) [] <> hobserve 0 (hstate w h1) a.
 Proof. exact hist_memo_refuted_lemma. Qed.
 Print Assumptions hist_memo_refuted.
+
+(* ======================================================================================
+   Round j.  "Loading ANY MIDI file converts ticks to seconds by integrating every tempo change of the file in
+   order", on the loader itself (Model.C06.load) and for every file: the tempo list the loader ends up with is a
+   function of the set_tempo events of ALL tracks (file_tempi: every track, absolute ticks) and of nothing else --
+   in particular it is the same list with merge_tracks and without (mido.merge_tracks' stable sort keeps the
+   changes of one tick in the order track by track, which is the order in which the unmerged reading meets them) *)
+Theorem load_tempo_of_file : forall dmpq (ml : bool) tracks,
+  snd (load dmpq ml tracks) = tempo_list ((0, dmpq) :: file_tempi tracks).
+Proof. exact load_tempo_file_lemma. Qed.
+Print Assumptions load_tempo_of_file.
+
+Theorem load_tempo_merge_invariant : forall dmpq tracks, snd (load dmpq true tracks) = snd (load dmpq false tracks).
+Proof. exact load_tempo_merge_invariant_lemma. Qed.
+Print Assumptions load_tempo_merge_invariant.
+
+(* ... and for every file without negative delta times, every default tempo, merged or not, the seconds the
+   loader gives tick k >= 0 are file_seconds (what the correspondence evaluates) = the integral of the tempo step
+   function of the file: every tick below k lasts the tempo of the last change at or before it, the changes of
+   all tracks taken in tick order (file_tempo_map) *)
+Theorem load_file_seconds : forall ppq dmpq (ml : bool) tracks k,
+  nonneg_deltas tracks = true -> 0 <= k ->
+  adjust_time ppq (snd (load dmpq ml tracks)) k = file_seconds ppq dmpq tracks k /\
+  file_seconds ppq dmpq tracks k = seconds_spec ppq (file_tempo_map dmpq tracks) k.
+Proof. exact load_file_seconds_lemma. Qed.
+Print Assumptions load_file_seconds.
+
+(* file_tempo_map is ordered by tick and holds exactly the default and the set_tempo events of every track *)
+Theorem file_tempo_map_order : forall dmpq tracks,
+  tick_sorted (file_tempo_map dmpq tracks) /\ Permutation (file_tempo_map dmpq tracks) ((0, dmpq) :: file_tempi tracks).
+Proof. exact file_tempo_map_order_lemma. Qed.
+Print Assumptions file_tempo_map_order.
+
+(* non-vacuity: three tracks, no set_tempo in the first, a change in the third track at an earlier tick than the
+   second track's, two changes at one tick in different tracks, a repeat of the default *)
+Example load_file_seconds_example :
+  nonneg_deltas fx_tracks = true /\
+  file_tempo_map 500000 fx_tracks = [(0, 500000); (240, 250000); (960, 600000); (960, 400000); (1200, 500000)] /\
+  snd (load 500000 false fx_tracks) = [(0, 500000); (240, 250000); (960, 600000); (960, 400000); (1200, 500000)] /\
+  snd (load 500000 true fx_tracks) = snd (load 500000 false fx_tracks) /\
+  (file_seconds 480 500000 fx_tracks 1440 == 1075 # 1000)%Q.
+Proof. exact load_file_seconds_example_lemma. Qed.
+Print Assumptions load_file_seconds_example.
+
+(* the statement discriminates: a loader that looks for set_tempo in the first track only, one that drops a
+   set_tempo repeating the value read last before the changes are ordered by tick, and one that integrates in
+   reading order do not have it *)
+Example tempo_first_track_refuted : exists ppq dmpq tracks k,
+  nonneg_deltas tracks = true /\ 0 <= k /\
+  ~ (adjust_time ppq (tempo_first_track dmpq tracks) k == seconds_spec ppq (file_tempo_map dmpq tracks) k)%Q.
+Proof. exact tempo_first_track_refuted_lemma. Qed.
+Print Assumptions tempo_first_track_refuted.
+
+Example tempo_dedup_reading_refuted : exists ppq dmpq tracks k,
+  nonneg_deltas tracks = true /\ 0 <= k /\
+  ~ (adjust_time ppq (tempo_dedup_reading dmpq tracks) k == seconds_spec ppq (file_tempo_map dmpq tracks) k)%Q.
+Proof. exact tempo_dedup_reading_refuted_lemma. Qed.
+Print Assumptions tempo_dedup_reading_refuted.
+
+Example tempo_reading_order_refuted : exists ppq dmpq tracks k,
+  nonneg_deltas tracks = true /\ 0 <= k /\
+  ~ (adjust_time ppq (tempo_reading_order dmpq tracks) k == seconds_spec ppq (file_tempo_map dmpq tracks) k)%Q.
+Proof. exact tempo_reading_order_refuted_lemma. Qed.
+Print Assumptions tempo_reading_order_refuted.
+
+(* what the correspondence checker check_anyfile (one file, loaded with merge_tracks=False and =True) establishes:
+   every time the implementation returned, in either mode, is (float tolerance) that integral *)
+Theorem check_anyfile_sound : forall ppq dmpq tracks obs_u obs_m,
+  check_anyfile (ppq, dmpq, tracks, obs_u, obs_m) = true ->
+  forall x, In x (obs_u ++ obs_m) -> 0 <= fst x ->
+    q_close9 (seconds_spec ppq (file_tempo_map dmpq tracks) (fst x)) (snd x) = true.
+Proof. exact check_anyfile_sound_lemma. Qed.
+Print Assumptions check_anyfile_sound.
+
+(* "with or without track merging", for ANY file (not only a saved performance): when no (channel, pitch) has note
+   messages in two tracks (keys_exclusive: then C06's proviso holds in the merged track as soon as it holds in the
+   tracks) and no delta time is negative, the message loop pairs from the track mido.merge_tracks makes of the file
+   exactly the notes -- pitch, velocity, channel, onset and offset tick -- it pairs from the tracks one by one ... *)
+Theorem load_merge_notes : forall tracks, nonneg_deltas tracks = true -> keys_exclusive tracks = true ->
+  Permutation (file_notes_merged tracks) (file_notes_separate tracks).
+Proof. exact load_merge_notes_lemma. Qed.
+Print Assumptions load_merge_notes.
+
+(* ... so the single part load_performance_midi(merge_tracks=True) returns holds the notes of all the parts it
+   returns with merge_tracks=False (and, by load_tempo_merge_invariant, at the same seconds) *)
+Theorem load_parts_merge_notes : forall dmpq tracks, nonneg_deltas tracks = true -> keys_exclusive tracks = true ->
+  Permutation (flat_map lp_notes (fst (load dmpq true tracks))) (flat_map lp_notes (fst (load dmpq false tracks))).
+Proof. exact load_parts_merge_notes_lemma. Qed.
+Print Assumptions load_parts_merge_notes.
+
+(* non-vacuity: two tracks, three keys, a zero-length note re-striking a key at the tick the previous note ends,
+   messages of both tracks at one tick *)
+Example load_merge_notes_example :
+  nonneg_deltas fy_tracks = true /\ keys_exclusive fy_tracks = true /\
+  file_notes_separate fy_tracks = [mkLN 60 64 0 0 480; mkLN 60 30 0 480 480; mkLN 60 70 1 240 480; mkLN 61 9 0 480 580] /\
+  file_notes_merged fy_tracks = [mkLN 60 64 0 0 480; mkLN 60 30 0 480 480; mkLN 60 70 1 240 480; mkLN 61 9 0 480 580].
+Proof. exact load_merge_notes_example_lemma. Qed.
+Print Assumptions load_merge_notes_example.
+
+(* the statement discriminates: a merge whose sort is not stable loses a zero-length note; and the hypothesis on the
+   keys is needed (one key sounding in two tracks at once) *)
+Example merge_unstable_refuted : exists tracks,
+  nonneg_deltas tracks = true /\ keys_exclusive tracks = true /\
+  ~ Permutation (pair_notes [] (undelta 0 (merge_tracks_unstable tracks))) (file_notes_separate tracks).
+Proof. exact merge_unstable_refuted_lemma. Qed.
+Print Assumptions merge_unstable_refuted.
+
+Example load_merge_notes_needs_exclusive : exists tracks,
+  nonneg_deltas tracks = true /\ keys_exclusive tracks = false /\
+  ~ Permutation (file_notes_merged tracks) (file_notes_separate tracks).
+Proof. exact load_merge_notes_needs_exclusive_lemma. Qed.
+Print Assumptions load_merge_notes_needs_exclusive.
